@@ -36,3 +36,19 @@ fn pending_and_later_operations_fail_with_context_exited_and_streams_drain_then_
     }
     assert!(matches!(st.poll_next_unpin(&mut cx), std::task::Poll::Ready(None)), "then the stream ends");
 }
+
+#[test]
+fn qos2_publish_whose_pubrel_cannot_be_queued_any_more_fails_with_context_exited() {
+    // the context processes the PUBREC and ends (end of stream) BEFORE the publishing task is polled again: the task then
+    // finds the context gone when it tries to queue its PUBREL and must complete with ContextExited, not stay pending
+    let mut b = Bench::connected(&[]);
+    let mut h = b.handle.clone();
+    let p2 = b.exec.spawn(async move { errstr(h.publish(PublishOpts::new().topic_name("t").qos(QoS::ExactlyOnce)).await) });
+    b.exec.settle();
+    b.written();
+    b.rx.push(&ack(0x50, 1, None));
+    b.rx.push_chunk(Chunk::Eof);
+    b.exec.settle();
+    assert!(matches!(b.run_result(), Some(Err(e)) if e.contains("SocketClosed")), "{:?}", b.run_result());
+    assert!(matches!(&*p2.borrow(), Some(Err(e)) if e.contains("ContextExited")), "publish between its phases: {:?}", p2.borrow());
+}
